@@ -664,8 +664,20 @@ def apply_sut(sut: TableSUT, op, aux):
         do_read(t, op)
     elif n == "restart":
         sut.restart(op.get("how", "xml"))
+    if op.get("touch_arg") and n in ("set_cell", "insert_cell", "append_cell", "set_row", "insert_row", "append_row"):
+        a = aux.get("arg")
+        if a is not None:
+            from odfdo import Cell as _Cell
+
+            if isinstance(a, _Cell):
+                a.set_value("late change")
+            else:
+                a.set_value(0, "late change")
+        return
+    if n in GRID_MUTATIONS or n in ("read", "restart"):
+        return
     # ---- ops without grid-model semantics (not used by C01) ----
-    elif n == "rstrip":
+    if n == "rstrip":
         t.rstrip(aggressive=op.get("aggressive", False))
     elif n == "optimize_width":
         t.optimize_width()
